@@ -7,7 +7,7 @@
 EXTENDS HttpRequest, Json
 
 CONSTANTS MaxTok,    \* tokens per target (the leading "/" included)
-          NTok       \* how many of the tokens below are used
+          TokSet     \* which of the tokens below are used (indices)
 
 VARIABLES tgt
 vars == <<tgt>>
@@ -26,7 +26,7 @@ Bytes(ts) == Flatten([i \in 1..Len(ts) |-> Tokens[ts[i]]])
 
 Init == tgt = <<2>>
 Extend(k) == Len(tgt) < MaxTok /\ tgt' = Append(tgt, k)
-Next == \E k \in 1..NTok : Extend(k)
+Next == \E k \in TokSet : Extend(k)
 Spec == Init /\ [][Next]_vars
 
 T == Bytes(tgt)
